@@ -483,6 +483,7 @@ def parseEv (t : String) : Option Ev :=
   | ["kb", h] => do some (Ev.consBegin (← h.toNat?))
   | ["kg", k] => do some (Ev.consSetGen (← k.toNat?))
   | ["kf", k, f] => do some (Ev.consSetFiles (← k.toNat?) (← f.toNat?) false)
+  | ["km", k, f, x] => do some (Ev.consSetFilesM (← k.toNat?) (← f.toNat?) (← x.toNat?))
   | ["kr", k] => do some (Ev.consPutBack (← k.toNat?))
   | ["kp", sl, b] => do some (Ev.consPublish (← parseNats "." sl) (b == "1"))
   | ["kt", k] => do some (Ev.consTrash (← k.toNat?))
